@@ -1,8 +1,8 @@
 (* Props/C15.v - Pumping power and modelled pressures stay physical.
    Only statements; every proof is [exact <lemma>] from Proofs/. *)
 From Coq Require Import QArith Qminmax List ZArith Bool.
-From Verif Require Import Base.Flat Model.Pressure Model.Pumping Model.Friction Model.WellDP
-     Proofs.PressureProofs Proofs.PumpingProofs Proofs.FrictionProofs Proofs.WellDPProofs.
+From Verif Require Import Base.Flat Model.Pressure Model.Pumping Model.Friction Model.WellDP Model.Hydrostatic
+     Proofs.PressureProofs Proofs.PumpingProofs Proofs.FrictionProofs Proofs.WellDPProofs Proofs.HydrostaticProofs.
 Import ListNotations.
 Open Scope Q_scope.
 
@@ -246,6 +246,102 @@ Proof. exact imp_vs_friction. Qed.
 Print Assumptions C15_impedance_vs_friction.
 
 (* ------------------------------------------------------------------------------------------------------
+   What surrounds the friction factor in WellPressureDrop / InjectionWellPressureDrop.
+   Velocity conserves mass; the code's Reynolds number 4q/(mu pi D) is rho v D/mu; both fall when D grows. *)
+Theorem C15_velocity_and_reynolds :
+  (forall q rho pi d, ~ rho == 0 -> ~ pi == 0 -> ~ d == 0 -> velocity q rho pi d * rho * (pi / 4 * (d * d)) == q) /\
+  (forall q rho mu pi d, ~ rho == 0 -> ~ mu == 0 -> ~ pi == 0 -> ~ d == 0 ->
+     reynolds q mu pi d == rho * velocity q rho pi d * d / mu) /\
+  (forall q rho pi d1 d2, 0 <= q -> 0 < rho -> 0 < pi -> 0 < d1 -> d1 <= d2 -> velocity q rho pi d2 <= velocity q rho pi d1) /\
+  (forall q mu pi d1 d2, 0 <= q -> 0 < mu -> 0 < pi -> 0 < d1 -> d1 <= d2 -> reynolds q mu pi d2 <= reynolds q mu pi d1).
+Proof. exact (conj velocity_mass_balance (conj reynolds_textbook (conj velocity_antimono reynolds_antimono))). Qed.
+Print Assumptions C15_velocity_and_reynolds.
+
+(* the laminar/turbulent switch as the code has it: Re < 2300 -> 64/Re; Re >= 2300 (2300 included) -> the turbulent
+   correlation with relative roughness 1E-4/D; a laminar well stays laminar when D grows; just below the switch the
+   factor is above 64/2300, so f is not continuous at the switch in general (none is claimed) *)
+Theorem C15_regime_switch :
+  (forall colebrook q mu pi d, reynolds q mu pi d < 2300 -> well_f colebrook q mu pi d = f_laminar (reynolds q mu pi d)) /\
+  (forall colebrook q mu pi d, 2300 <= reynolds q mu pi d ->
+     well_f colebrook q mu pi d = colebrook ((1 # 10000) / d) (reynolds q mu pi d)) /\
+  (forall q mu pi d1 d2, 0 <= q -> 0 < mu -> 0 < pi -> 0 < d1 -> d1 <= d2 ->
+     reynolds q mu pi d1 < 2300 -> reynolds q mu pi d2 < 2300) /\
+  (forall re, 0 < re -> re < 2300 -> 64 / 2300 < f_laminar re).
+Proof. exact (conj well_f_laminar_branch (conj well_f_turbulent_branch (conj laminar_stays_laminar laminar_factor_above_limit))). Qed.
+Print Assumptions C15_regime_switch.
+
+(* a whole series gets ONE branch, chosen by the average Reynolds number ... *)
+Theorem C15_series_branch :
+  (forall q pi d mu fturb, laminar_regime q pi d mu = true ->
+     friction_series q pi d mu fturb = map (fun m => f_laminar (reynolds q m pi d)) mu) /\
+  (forall q pi d mu fturb, laminar_regime q pi d mu = false -> friction_series q pi d mu fturb = fturb).
+Proof. exact (conj friction_series_laminar friction_series_turbulent). Qed.
+Print Assumptions C15_series_branch.
+
+(* ... so a time step whose own Re is >= 2300 can be given the laminar factor (what the code does) *)
+Theorem C15_regime_decided_by_average :
+  exists q pi d mu fturb, laminar_regime q pi d mu = true /\ 2300 <= reynolds q (nth 0 mu 0) pi d /\
+    nth 0 (friction_series q pi d mu fturb) 0 == f_laminar (reynolds q (nth 0 mu 0) pi d).
+Proof. exact regime_decided_by_average. Qed.
+Print Assumptions C15_regime_decided_by_average.
+
+(* every step's pressure loss is f_i * rho_i * v_i^2/2 * L/D / 1000 with the step's own factor and density, in both wells
+   (the injection well with the flow nprod/ninj*q*(1+waterloss)) *)
+Theorem C15_pressure_loss_per_step :
+  (forall q pi depth d f rho i, (i < length f)%nat -> (i < length rho)%nat ->
+     nth i (dp_series q pi depth d f rho) 0 = dp_of (nth i f 0) q (nth i rho 0) pi depth d) /\
+  (forall f q rho pi depth d,
+     dp_of f q rho pi depth d = f * (rho * (velocity q rho pi d * velocity q rho pi d) / 2) * (depth / d) / 1000).
+Proof. exact (conj dp_series_nth dp_of_formula). Qed.
+Print Assumptions C15_pressure_loss_per_step.
+
+(* ------------------------------------------------------------------------------------------------------
+   Static (litho-/hydrostatic) column rho*g*depth: positive, strictly increasing and additive in depth, monotone in
+   the density - for all positive densities and depths. *)
+Theorem C15_static_pressure :
+  (forall rho depth, 0 < rho -> 0 < depth -> 0 < static_pressure_MPa rho depth) /\
+  (forall rho d1 d2, 0 <= rho -> d1 <= d2 -> static_pressure_MPa rho d1 <= static_pressure_MPa rho d2) /\
+  (forall rho d1 d2, 0 < rho -> d1 < d2 -> static_pressure_MPa rho d1 < static_pressure_MPa rho d2) /\
+  (forall rho d1 d2, static_pressure_MPa rho (d1 + d2) == static_pressure_MPa rho d1 + static_pressure_MPa rho d2) /\
+  (forall r1 r2 depth, 0 <= depth -> r1 <= r2 -> static_pressure_MPa r1 depth <= static_pressure_MPa r2 depth).
+Proof. exact (conj static_pos (conj static_mono (conj static_strict (conj static_additive static_density_mono)))). Qed.
+Print Assumptions C15_static_pressure.
+
+(* Built-in hydrostatic correlation 1/CP*(exp(x) - 1), x = rho*9.81*CP/1000*(depth - CT/2*grad*depth^2):
+   for ANY function in the place of math.exp that is > 1 on positive arguments the pressure is positive as long as
+   CT*grad*depth < 2 ... *)
+Theorem C15_hydrostatic_positive :
+  forall ex rho pw grad depth,
+  (forall x, 0 < x -> 1 < ex x) ->
+  0 < rho -> 0 < depth -> ct_of pw * grad * depth < 2 -> 0 < hydrostatic_kPa ex rho pw grad depth.
+Proof. exact hydrostatic_pos. Qed.
+Print Assumptions C15_hydrostatic_positive.
+
+(* ... and, for any non-decreasing [ex], non-decreasing in depth up to the vertex depth <= 1/(CT*grad) (PARTIAL:
+   beyond it the code's correlation decreases with depth, next theorem) *)
+Theorem C15_hydrostatic_monotone_partial :
+  forall ex rho pw grad d1 d2,
+  (forall x y, x <= y -> ex x <= ex y) ->
+  0 <= rho -> 0 <= d1 -> d1 <= d2 -> ct_of pw * grad * d2 <= 1 ->
+  hydrostatic_kPa ex rho pw grad d1 <= hydrostatic_kPa ex rho pw grad d2.
+Proof. exact hydrostatic_mono. Qed.
+Print Assumptions C15_hydrostatic_monotone_partial.
+
+Theorem C15_hydrostatic_monotone_refuted :
+  exists rho ct grad d1 d2, 0 < rho /\ 0 < ct /\ 0 < grad /\ 0 < d1 /\ d1 < d2 /\
+    hydro_arg rho ct grad d2 < hydro_arg rho ct grad d1.
+Proof. exact hydro_arg_not_monotone. Qed.
+Print Assumptions C15_hydrostatic_monotone_refuted.
+
+(* never below the temperature-corrected linear column when ex x >= 1 + x (a fact about exp) *)
+Theorem C15_hydrostatic_lower_bound :
+  forall ex rho pw grad depth,
+  (forall x, 1 + x <= ex x) ->
+  rho * (981 # 100) / 1000 * (depth - ct_of pw / 2 * grad * (depth * depth)) <= hydrostatic_kPa ex rho pw grad depth.
+Proof. exact hydrostatic_lower_bound. Qed.
+Print Assumptions C15_hydrostatic_lower_bound.
+
+(* ------------------------------------------------------------------------------------------------------
    non-vacuity: the hypotheses are satisfiable and the models compute what the comments say *)
 Example C15_example_prod :
   (exists l, prod_pressure 2 3 1000 150 40 = Vals l /\ length l = 6%nat /\ nth 0 l 0 == 1500 /\
@@ -294,3 +390,9 @@ Example C15_example_pump_pressure :
   /\ 0 < dp_prod_index 1500 29000 55 (5 # 100) 900 3000 200
   /\ (16 # 1000) * pow5 (2 # 10) <= (15 # 1000) * pow5 (25 # 100).
 Proof. split; [vm_compute; reflexivity|]. split; [vm_compute; reflexivity|]. vm_compute. discriminate. Qed.
+
+Example C15_example_hydrostatic :
+  0 < static_pressure_MPa 1000 3000 /\ static_pressure_MPa 1000 3000 == 2941995 # 100000
+  /\ 0 < hydro_arg 990 (ct_of (5 # 100)) (5 # 100) 3000 /\ ct_of (5 # 100) * (5 # 100) * 3000 <= 1
+  /\ 0 < hydrostatic_kPa (fun x => 1 + x) 990 (5 # 100) (5 # 100) 3000.
+Proof. repeat split; vm_compute; try reflexivity; discriminate. Qed.
